@@ -262,6 +262,29 @@ func gcHistory(o *Out, tier string) {
 		}
 	}
 	o.emitDirect("stress/gc-history", bad == "", strconv.Itoa(rounds)+" rounds of Config; Reconfigure; GC; Reconfigure; GC; Config; Reconfigure(Config()) "+bad)
+	// the tight variant: configurations of one shape (only max-age differs), nothing else allocated between the
+	// collection and the next Reconfigure, so that the retired configuration's address is likely to be reused at once
+	shape := func(age int) *cors.Config {
+		return &cors.Config{Origins: []string{"https://example.com", "https://*.example.org:*"}, Methods: []string{"PUT", "DELETE"},
+			RequestHeaders: []string{"X-Foo", "X-Bar"}, ResponseHeaders: []string{"X-Baz"}, MaxAgeInSeconds: age}
+	}
+	tm, _ := cors.NewMiddleware(*shape(1))
+	age, bad2 := 1, ""
+	for i := 0; i < rounds*8 && bad2 == ""; i++ {
+		if got := tm.Config(); got == nil || got.MaxAgeInSeconds != age {
+			bad2 = "round " + strconv.Itoa(i) + ": Config() does not report the current max-age " + strconv.Itoa(age)
+			break
+		}
+		age++
+		tm.Reconfigure(shape(age))
+		runtime.GC()
+		age++
+		tm.Reconfigure(shape(age))
+		if got := tm.Config(); got == nil || got.MaxAgeInSeconds != age {
+			bad2 = "round " + strconv.Itoa(i) + ": after Config(); Reconfigure; GC; Reconfigure, Config() reports max-age " + strconv.Itoa(got.MaxAgeInSeconds) + " instead of the current " + strconv.Itoa(age)
+		}
+	}
+	o.emitDirect("stress/gc-history-tight", bad2 == "", strconv.Itoa(rounds*8)+" rounds of Config; Reconfigure; GC; Reconfigure; Config on one configuration shape "+bad2)
 }
 
 func famStress(o *Out, r R, tier string) {
